@@ -320,9 +320,11 @@ func cmdCheck(args []string) int {
 	cfg.RecordQueries = true
 	// a query z3 4.8.12 leaves undecided gets a second opinion (z3 5.1.0, then cvc5) before it counts as unknown
 	cfg.FallbackMs = 60000
+	cfg.FallbackBudget = 10 * time.Minute
 	cfg.FallbackSolvers = [][]string{{"z3-new", "-in"}, {"cvc5", "--lang", "smt2", "--produce-models"}}
 	if tier == "thorough" {
 		cfg.FallbackMs = 240000
+		cfg.FallbackBudget = 60 * time.Minute
 		cfg.QueryTimeoutMs = 120000
 		cfg.Samples = 24
 		cfg.CrossCheck = 40
